@@ -2,6 +2,7 @@ import Casket.Model.FileServe
 import Casket.Spec.FileServe
 import Casket.Model.FileServeSeq
 import Casket.Spec.FileServeSeq
+import Casket.Model.FileServeSites
 import Casket.Spec.Cond
 import Casket.Generated.FileServe
 import Driver.Proto
@@ -30,6 +31,15 @@ Streams of C02.
             D:<hex path>            the regular file is removed
             L:<hex path>:<hex src>  ln -f src path (one more name of src's inode)
      out    the answers of the G steps, each as in c02.serve, joined by `|`
+  c02.sites  fs  casketfile  config  host  method  target  acceptenc  listfmt      several sites from ONE Casketfile
+     config  hex of lines, one per server block in the order of the file:
+                 <host,host…> <root> <prefix|-> <browse|-> <index|-> <style>
+             host: an address of the block (each address is a site configuration of its own); root: absolute
+             path inside the fixture; prefix/browse/index as in c02.serve (`-` = none);
+             style: a number saying HOW the block is written (harness/streams/c02sites.go) — not part of the
+             meaning, the model does not look at it
+     host    the address the request is sent to (Host header)
+     out     as c02.serve
   c02.archerr  kind  type     kind none|symlink|dirlink|socket|procfs in the archived directory; out = alive clean | alive <defect> | CRASH
   c02.clean  hexpath        out = hex of path.Clean(path) TAB hex of path.Clean("/"+path)
   c02.match  hexpath hexbase    out = 1|0   (httpserver.Path.Matches)
@@ -295,6 +305,52 @@ def mutateJudge (f : List String) (out : String) : String :=
     | none => "bad:unparsable:" ++ out
     | some obs => Casket.FileServeSeqSpec.verdictSeq c.site 0 c.fs c.steps obs
 
+/-! ### c02.sites : several sites loaded from one Casketfile; every site is probed -/
+def undash (b : Bytes) : Bytes := if b = [45] then [] else b
+
+def parseBlock (line : Bytes) : Option Casket.FileServeSites.Block :=
+  match (splitOn 32 line).filter (· ≠ []) with
+  | [hosts, root, pre, br, ix, _style] =>
+    some { hosts := splitOn 44 hosts, root := clean root,
+           indexPages := if undash ix = [] then Casket.Generated.defaultIndexPages else splitOn 44 ix,
+           pathPrefix := if undash pre = [] then [slash] else pre,
+           browse := parseBrowse (undash br) }
+  | _ => none
+
+structure SitesCase where
+  fs : FS
+  cf : Bytes
+  blocks : List Casket.FileServeSites.Block
+  host : Bytes
+  method : Bytes
+  target : Bytes
+  ae : Bytes
+
+def parseSitesCase : List String → Option SitesCase
+  | [fsH, cfH, cfgH, host, method, tgtH, aeH, _listfmt] => do
+    let fs ← parseFS (← Driver.unhex fsH)
+    let cf ← Driver.unhex cfH
+    let cfg ← Driver.unhex cfgH
+    let blocks ← (splitOn 10 cfg).mapM parseBlock
+    pure { fs := fs, cf := clean cf, blocks := blocks, host := host.toUTF8.toList,
+           method := method.toUTF8.toList, target := ← Driver.unhex tgtH, ae := ← Driver.unhex aeH }
+  | _ => none
+
+def sitesModel (f : List String) : String :=
+  match parseSitesCase f with
+  | none => "bad-case"
+  | some c => render c.method (Casket.FileServeSites.serveSites c.fs Casket.Generated.staticEncodingPriority
+      c.cf c.blocks c.host c.method c.target c.ae)
+
+def sitesJudge (f : List String) (out : String) : String :=
+  match parseSitesCase f with
+  | none => "bad:unparsable:case"
+  | some c =>
+    match Casket.FileServeSites.siteOf Casket.Generated.staticEncodingPriority c.cf c.blocks c.host, parseObs out with
+    | none, _ => "bad:unparsable:case names no site"
+    | _, none => "bad:unparsable:" ++ out
+    | some s, some obs => Casket.FileServeSpec.verdict c.fs s c.target c.ae obs
+
 /-- c02.archerr (explored, not modelled): the archive error paths must leave the server alive
 and the client with one well-formed response. -/
 def archErrJudge (_ : List String) (out : String) : String :=
@@ -307,6 +363,7 @@ def streams : List Driver.Stream := [
   { name := "c02.cond", model := condModel, judge := condJudge },
   { name := "c02.serve", model := serveModel, judge := serveJudge },
   { name := "c02.mutate", model := mutateModel, judge := mutateJudge },
+  { name := "c02.sites", model := sitesModel, judge := sitesJudge },
   { name := "c02.clean", model := cleanModel, judge := fun _ _ => "ok" },
   { name := "c02.match", model := matchModel, judge := fun _ _ => "ok" },
   { name := "c02.escape", model := escapeModel, judge := fun _ _ => "ok" }
